@@ -35,15 +35,23 @@ theorem lookup_found_mem {db : Db} {now : Int} {h : Str} {u : User}
 theorem recognise_mem {db : Db} {now : Int} {h : Str} {u : User}
     (hr : db.recognise now h = some u) : u ∈ db.users := by
   unfold Db.recognise at hr
-  cases hl : db.lookup now h with
-  | found v =>
-    rw [hl] at hr
-    simp only at hr
-    split at hr
-    · cases hr
-    · injection hr with hr; subst hr; exact lookup_found_mem hl
-  | missing => rw [hl] at hr; cases hr
-  | duplicate => rw [hl] at hr; cases hr
+  split at hr
+  · cases hr
+  · cases hl : db.lookup now h with
+    | found v =>
+      rw [hl] at hr
+      simp only at hr
+      split at hr
+      · cases hr
+      · injection hr with hr; subst hr; exact lookup_found_mem hl
+    | missing => rw [hl] at hr; cases hr
+    | duplicate => rw [hl] at hr; cases hr
+
+/-- a sender whose prefix is not `nick!user@host` (a server, a service, a bare nick) is nobody,
+whatever accounts exist -/
+theorem recognise_needs_hostmask (db : Db) (now : Int) (h : Str) (hh : isUserHostmask h = false) :
+    db.recognise now h = none := by
+  unfold Db.recognise; simp [hh]
 
 /-- lowering a valid capability gives `render` of lowered, well-formed parts -/
 theorem valid_lower {cap : Str} (hv : validCap cap = true) :
